@@ -1,136 +1,39 @@
-(** C14 -- region 1: density rises with pressure at fixed temperature -- PARTIAL domain.
+(** C14 -- region 1: density rises with pressure at fixed temperature -- on ALL of region 1
+    (0 <= t <= 350 degC, 0 <= p <= 100 MPa: region 1 and the metastable liquid below psat).
 
-    Proved for the part of region 1 (and of the metastable liquid below the saturation
-    pressure) on which plain interval arithmetic closes the sign of gamma_pipi:
-        0 <= t <= 260 degC:    0       <= p <= 100 MPa      (includes the metastable liquid below psat)
-        260 < t <= 285 degC:   psat(t) <= p <= 100 MPa      (all of region 1 at these temperatures)
-        285 < t <= 300 degC:   12.5 MPa <= p;   300 < t <= 312: 17.5 MPa <= p;   312 < t <= 326: 25 MPa <= p;
-        326 < t <= 338 degC:   30 MPa <= p;     338 < t <= 350: 40 MPa <= p
-    (39 rectangles; the lower pressure limits follow the line where the 34-term sum cancels to about
-    1/200 of its largest term).  In the remaining strip between the saturation curve and those limits
-    the cancellation reaches 1/9000; bisection in two variables does not close there (measured, see
-    reports/C14.md); that part stays with the sampled oracle. *)
+    gamma_pipi < 0 on the whole box 273 <= T <= 624 K, 0 <= p <= 100 MPa: ONE call of interval
+    arithmetic on the regrouped sum of Mono1R.v (the naive 34-term sum cancels to 1/9000 of its
+    largest term near (350 degC, psat) and did not close there; after re-expanding the cubic in
+    z = X/Y carried by the last four terms the box closes in 4 s).  Then the mean value theorem. *)
 From Coq Require Import ZArith QArith Qreals Reals List Bool Lra.
 From Coquelicot Require Import Coquelicot.
 From Interval Require Import Tactic.
 From Gen Require Import GenIAPWS GenTraced.
-From P Require Import Expr RunR Deriv Potential Mono1
-  Mono1TilesA Mono1TilesB Mono1TilesC Mono1TilesD Mono1TilesE Mono1TilesF Mono1TilesG Mono1TilesH
-  Mono1TilesI Mono1TilesJ Mono1TilesK Mono1TilesL Mono1TilesM Mono1TilesN Formulas SatInv SatRange.
+From P Require Import Expr RunR Deriv Potential Mono1 Mono1R.
 Import ListNotations.
 Close Scope Q_scope.
 Open Scope R_scope.
 
-Definition plow1 (tk : R) : R :=
-  if Rle_dec tk 300 then 0 else
-  if Rle_dec tk 350 then 0 else
-  if Rle_dec tk 400 then 0 else
-  if Rle_dec tk 450 then 0 else
-  if Rle_dec tk 500 then 0 else
-  if Rle_dec tk 534 then 0 else
-  if Rle_dec tk 545 then 4700000 else
-  if Rle_dec tk 560 then 5600000 else
-  if Rle_dec tk 574 then 12500000 else
-  if Rle_dec tk 586 then 17500000 else
-  if Rle_dec tk 600 then 25000000 else
-  if Rle_dec tk 612 then 30000000 else
-  40000000.
+Definition in_dom1 (tk p : R) : Prop := 273 <= tk <= 624 /\ 0 <= p <= 100000000.
 
-Definition in_dom1 (tk p : R) : Prop := 273 <= tk <= 624 /\ (0 <= p /\ plow1 tk <= p <= 100000000).
+Lemma gppR_neg tk p : 273 <= tk <= 624 -> 0 <= p <= 100000000 -> gppR tk p <= -1/100000.
+Proof. intros H1 H2. exposeR. interval with (i_bisect tk, i_bisect p, i_depth 22). Qed.
 
-(** the rectangles of Mono1Tiles*.v cover the domain *)
+Lemma X1_pos p : 0 <= p <= 100000000 -> 1 <= X1 p.
+Proof. intros H. unfold X1, Q2R, c7_1, pstar1_Q; cbn [Qnum Qden]. interval. Qed.
+Lemma Y1_pos tk : 273 <= tk <= 624 -> 99/100 <= Y1 tk.
+Proof. intros H. unfold Y1, Q2R, tstar1_Q, c1_222; cbn [Qnum Qden]. interval. Qed.
+
 Lemma gpp_neg tk p : in_dom1 tk p -> gpp tk p < 0.
 Proof.
-  intros (Ht & Hp). unfold plow1 in Hp. revert Hp.
-  destruct (Rle_dec tk 300).
-  { intros Hp.
-    destruct (Rle_dec p 12500000); [pose proof (tile_273_300_0_125 tk p ltac:(lra) ltac:(lra)); lra|].
-    destruct (Rle_dec p 25000000); [pose proof (tile_273_300_125_250 tk p ltac:(lra) ltac:(lra)); lra|].
-    destruct (Rle_dec p 50000000); [pose proof (tile_273_300_250_500 tk p ltac:(lra) ltac:(lra)); lra|].
-    pose proof (tile_273_300_500_1000 tk p ltac:(lra) ltac:(lra)); lra.
-  }
-  destruct (Rle_dec tk 350).
-  { intros Hp.
-    destruct (Rle_dec p 12500000); [pose proof (tile_300_350_0_125 tk p ltac:(lra) ltac:(lra)); lra|].
-    destruct (Rle_dec p 25000000); [pose proof (tile_300_350_125_250 tk p ltac:(lra) ltac:(lra)); lra|].
-    destruct (Rle_dec p 50000000); [pose proof (tile_300_350_250_500 tk p ltac:(lra) ltac:(lra)); lra|].
-    pose proof (tile_300_350_500_1000 tk p ltac:(lra) ltac:(lra)); lra.
-  }
-  destruct (Rle_dec tk 400).
-  { intros Hp.
-    destruct (Rle_dec p 12500000); [pose proof (tile_350_400_0_125 tk p ltac:(lra) ltac:(lra)); lra|].
-    destruct (Rle_dec p 25000000); [pose proof (tile_350_400_125_250 tk p ltac:(lra) ltac:(lra)); lra|].
-    destruct (Rle_dec p 50000000); [pose proof (tile_350_400_250_500 tk p ltac:(lra) ltac:(lra)); lra|].
-    pose proof (tile_350_400_500_1000 tk p ltac:(lra) ltac:(lra)); lra.
-  }
-  destruct (Rle_dec tk 450).
-  { intros Hp.
-    destruct (Rle_dec p 12500000); [pose proof (tile_400_450_0_125 tk p ltac:(lra) ltac:(lra)); lra|].
-    destruct (Rle_dec p 25000000); [pose proof (tile_400_450_125_250 tk p ltac:(lra) ltac:(lra)); lra|].
-    destruct (Rle_dec p 50000000); [pose proof (tile_400_450_250_500 tk p ltac:(lra) ltac:(lra)); lra|].
-    pose proof (tile_400_450_500_1000 tk p ltac:(lra) ltac:(lra)); lra.
-  }
-  destruct (Rle_dec tk 500).
-  { intros Hp.
-    destruct (Rle_dec p 12500000); [pose proof (tile_450_500_0_125 tk p ltac:(lra) ltac:(lra)); lra|].
-    destruct (Rle_dec p 25000000); [pose proof (tile_450_500_125_250 tk p ltac:(lra) ltac:(lra)); lra|].
-    destruct (Rle_dec p 50000000); [pose proof (tile_450_500_250_500 tk p ltac:(lra) ltac:(lra)); lra|].
-    pose proof (tile_450_500_500_1000 tk p ltac:(lra) ltac:(lra)); lra.
-  }
-  destruct (Rle_dec tk 534).
-  { intros Hp.
-    destruct (Rle_dec p 12500000); [pose proof (tile_500_534_0_125 tk p ltac:(lra) ltac:(lra)); lra|].
-    destruct (Rle_dec p 25000000); [pose proof (tile_500_534_125_250 tk p ltac:(lra) ltac:(lra)); lra|].
-    destruct (Rle_dec p 50000000); [pose proof (tile_500_534_250_500 tk p ltac:(lra) ltac:(lra)); lra|].
-    pose proof (tile_500_534_500_1000 tk p ltac:(lra) ltac:(lra)); lra.
-  }
-  destruct (Rle_dec tk 545).
-  { intros Hp.
-    destruct (Rle_dec p 25000000); [pose proof (tile_534_545_47_250 tk p ltac:(lra) ltac:(lra)); lra|].
-    destruct (Rle_dec p 50000000); [pose proof (tile_534_560_250_500 tk p ltac:(lra) ltac:(lra)); lra|].
-    pose proof (tile_534_560_500_1000 tk p ltac:(lra) ltac:(lra)); lra.
-  }
-  destruct (Rle_dec tk 560).
-  { intros Hp.
-    destruct (Rle_dec p 25000000); [pose proof (tile_545_560_56_250 tk p ltac:(lra) ltac:(lra)); lra|].
-    destruct (Rle_dec p 50000000); [pose proof (tile_534_560_250_500 tk p ltac:(lra) ltac:(lra)); lra|].
-    pose proof (tile_534_560_500_1000 tk p ltac:(lra) ltac:(lra)); lra.
-  }
-  destruct (Rle_dec tk 574).
-  { intros Hp.
-    destruct (Rle_dec p 25000000); [pose proof (tile_560_574_125_250 tk p ltac:(lra) ltac:(lra)); lra|].
-    destruct (Rle_dec p 50000000); [pose proof (tile_560_574_250_500 tk p ltac:(lra) ltac:(lra)); lra|].
-    pose proof (tile_560_574_500_1000 tk p ltac:(lra) ltac:(lra)); lra.
-  }
-  destruct (Rle_dec tk 586).
-  { intros Hp.
-    destruct (Rle_dec p 27500000); [pose proof (tile_574_586_175_275 tk p ltac:(lra) ltac:(lra)); lra|].
-    destruct (Rle_dec p 50000000); [pose proof (tile_574_586_275_500 tk p ltac:(lra) ltac:(lra)); lra|].
-    pose proof (tile_574_600_500_1000 tk p ltac:(lra) ltac:(lra)); lra.
-  }
-  destruct (Rle_dec tk 600).
-  { intros Hp.
-    destruct (Rle_dec p 50000000); [pose proof (tile_586_600_250_500 tk p ltac:(lra) ltac:(lra)); lra|].
-    pose proof (tile_574_600_500_1000 tk p ltac:(lra) ltac:(lra)); lra.
-  }
-  destruct (Rle_dec tk 612).
-  { intros Hp.
-    destruct (Rle_dec p 50000000); [pose proof (tile_600_612_300_500 tk p ltac:(lra) ltac:(lra)); lra|].
-    pose proof (tile_600_612_500_1000 tk p ltac:(lra) ltac:(lra)); lra.
-  }
-  intros Hp.
-  destruct (Rle_dec p 50000000); [pose proof (tile_612_624_400_500 tk p ltac:(lra) ltac:(lra)); lra|].
-  pose proof (tile_612_624_500_1000 tk p ltac:(lra) ltac:(lra)); lra.
+  intros (Ht & Hp). pose proof (X1_pos p Hp). pose proof (Y1_pos tk Ht).
+  unfold gpp. rewrite dxx_regroup by lra. pose proof (gppR_neg tk p Ht Hp) as N. unfold gppR in N. lra.
 Qed.
 
 (** gamma_pi is positive on the 100 MPa edge ... *)
 Lemma g1_pos_at_100MPa tk : 273 <= tk <= 624 -> 1/100 <= g1 tk 100000000.
 Proof. intros H. expose1. interval with (i_bisect tk, i_depth 14). Qed.
 
-Lemma X1_pos p : 0 <= p <= 100000000 -> 1 <= X1 p.
-Proof. intros H. unfold X1, Q2R, c7_1, pstar1_Q; cbn [Qnum Qden]. interval. Qed.
-Lemma Y1_pos tk : 273 <= tk <= 624 -> 99/100 <= Y1 tk.
-Proof. intros H. unfold Y1, Q2R, tstar1_Q, c1_222; cbn [Qnum Qden]. interval. Qed.
 Lemma pstar1_pos : 0 < Q2R pstar1_Q.
 Proof. unfold Q2R, pstar1_Q; cbn [Qnum Qden]. lra. Qed.
 
@@ -138,10 +41,10 @@ Proof. unfold Q2R, pstar1_Q; cbn [Qnum Qden]. lra. Qed.
 Lemma g1_decreasing tk p1 p2 : in_dom1 tk p1 -> p1 < p2 <= 100000000 -> g1 tk p2 < g1 tk p1.
 Proof.
   intros D1 Hp. pose proof pstar1_pos as Hs.
-  destruct D1 as (Ht & Hp0 & Hp1).
+  destruct D1 as (Ht & Hp1).
   destruct (g_mvt n1 (Q2R c7_1) (Q2R pstar1_Q) (Y1 tk) p1 p2 R1.terms ltac:(lra) ltac:(lra)) as (q & Hq & E).
   { intros p Hpp. pose proof (X1_pos p ltac:(lra)) as Q. unfold X1 in Q. lra. }
-  assert (Dq : in_dom1 tk q) by (split; [lra|split; lra]).
+  assert (Dq : in_dom1 tk q) by (split; lra).
   pose proof (gpp_neg tk q Dq) as N. unfold gpp, X1 in N. unfold g1, X1.
   set (d := msum_dxx n1 (Q2R c7_1 - q / Q2R pstar1_Q) (Y1 tk) R1.terms) in *.
   assert (K : 0 < (- d) * / Q2R pstar1_Q * (p2 - p1)).
@@ -155,14 +58,14 @@ Proof.
   intros D1. pose proof (g1_pos_at_100MPa tk ltac:(destruct D1; lra)) as G.
   destruct (Rlt_dec p 100000000) as [L|L].
   - pose proof (g1_decreasing tk p 100000000 D1 ltac:(lra)). lra.
-  - assert (p = 100000000) by (destruct D1 as (_ & _ & ?); lra). subst p. exact G.
+  - assert (p = 100000000) by (destruct D1 as (_ & ?); lra). subst p. exact G.
 Qed.
 
 (** what the traced cowat returns as density, on the domain *)
 Lemma cowat_density t p : in_dom1 (t + Q2R tc_k_Q) p ->
   nth 0 (outsR cowat_traced [t; p] n1) 0 = Q2R pstar1_Q / (Q2R rconst_Q * (t + Q2R tc_k_Q) * g1 (t + Q2R tc_k_Q) p).
 Proof.
-  intros D1. pose proof (g1_pos _ _ D1) as G. destruct D1 as (Ht & Hp0 & Hp).
+  intros D1. pose proof (g1_pos _ _ D1) as G. destruct D1 as (Ht & Hp).
   pose proof (X1_pos p ltac:(lra)) as HX. pose proof (Y1_pos _ Ht) as HY.
   assert (HR : 0 < Q2R rconst_Q) by (unfold Q2R, rconst_Q; cbn [Qnum Qden]; lra).
   rewrite (R1.outputs t p n1).
@@ -173,51 +76,15 @@ Proof.
   - unfold g1, X1, Y1 in G. apply Rgt_not_eq. apply Rmult_lt_0_compat; [apply Rmult_lt_0_compat; lra|lra].
 Qed.
 
-(** the saturation pressure on the two columns where the domain reaches down to it *)
-Lemma sat_floor_a tk : 534 <= tk <= 545 -> 4700000 <= sat_val n4 tk.
-Proof. intros H. expose. interval with (i_bisect tk, i_depth 14). Qed.
-Lemma sat_floor_b tk : 545 <= tk <= 560 -> 5600000 <= sat_val n4 tk.
-Proof. intros H. expose. interval with (i_bisect tk, i_depth 14). Qed.
-
-(** the stated conditions on (t, p) put (tk, p) in the tiled domain *)
-Lemma in_dom1_of_conditions t p :
-  0 <= t <= 350 -> 0 <= p <= 100000000 ->
-  (260 < t <= 285 -> sat_val n4 (t + Q2R tc_k_Q) <= p) ->
-  (285 < t -> 12500000 <= p) -> (300 < t -> 17500000 <= p) -> (312 < t -> 25000000 <= p) ->
-  (326 < t -> 30000000 <= p) -> (338 < t -> 40000000 <= p) ->
-  in_dom1 (t + Q2R tc_k_Q) p.
-Proof.
-  intros Ht Hp Hs H1 H2 H3 H4 H5.
-  assert (Hk : t + 27314/100 <= t + Q2R tc_k_Q <= t + 27315/100) by (unfold Q2R, tc_k_Q; cbn [Qnum Qden]; lra).
-  set (tk := t + Q2R tc_k_Q) in *.
-  split; [lra|]. split; [lra|]. split; [|lra]. unfold plow1.
-  repeat (destruct (Rle_dec tk _) as [?|?]; [lra|]).
-  destruct (Rle_dec tk 545).
-  { pose proof (Hs ltac:(lra)). pose proof (sat_floor_a tk ltac:(lra)). lra. }
-  destruct (Rle_dec tk 560).
-  { destruct (Rle_dec t 285); [pose proof (Hs ltac:(lra)); pose proof (sat_floor_b tk ltac:(lra)); lra|pose proof (H1 ltac:(lra)); lra]. }
-  destruct (Rle_dec tk 574); [pose proof (H1 ltac:(lra)); lra|].
-  destruct (Rle_dec tk 586); [pose proof (H2 ltac:(lra)); lra|].
-  destruct (Rle_dec tk 600); [pose proof (H3 ltac:(lra)); lra|].
-  destruct (Rle_dec tk 612); [pose proof (H4 ltac:(lra)); lra|].
-  pose proof (H5 ltac:(lra)); lra.
-Qed.
-
-Theorem density_increases_region1_partial_proof (t p1 p2 : R) :
+Theorem density_increases_region1_proof (t p1 p2 : R) :
   0 <= t <= 350 -> 0 <= p1 -> p1 < p2 <= 100000000 ->
-  (260 < t <= 285 -> sat_val n4 (t + Q2R tc_k_Q) <= p1) ->
-  (285 < t -> 12500000 <= p1) -> (300 < t -> 17500000 <= p1) -> (312 < t -> 25000000 <= p1) ->
-  (326 < t -> 30000000 <= p1) -> (338 < t -> 40000000 <= p1) ->
   let rho p := nth 0 (outsR cowat_traced [t; p] n1) 0 in
   0 < rho p1 < rho p2.
 Proof.
-  intros Ht Hp1 Hp2 Hs H1 H2 H3 H4 H5 rho.
-  assert (D1 : in_dom1 (t + Q2R tc_k_Q) p1) by (apply in_dom1_of_conditions; try assumption; lra).
-  assert (D2 : in_dom1 (t + Q2R tc_k_Q) p2).
-  { apply in_dom1_of_conditions; try lra; intros Hh;
-      first [pose proof (Hs Hh); lra|pose proof (H1 Hh); lra|pose proof (H2 Hh); lra|pose proof (H3 Hh); lra
-            |pose proof (H4 Hh); lra|pose proof (H5 Hh); lra]. }
+  intros Ht Hp1 Hp2 rho.
   assert (Hk : 27314/100 <= t + Q2R tc_k_Q <= 62316/100) by (unfold Q2R, tc_k_Q; cbn [Qnum Qden]; lra).
+  assert (D1 : in_dom1 (t + Q2R tc_k_Q) p1) by (split; lra).
+  assert (D2 : in_dom1 (t + Q2R tc_k_Q) p2) by (split; lra).
   set (tk := t + Q2R tc_k_Q) in *.
   unfold rho. rewrite (cowat_density t p1 D1), (cowat_density t p2 D2). fold tk.
   pose proof (g1_pos tk p2 D2) as G2. pose proof (g1_decreasing tk p1 p2 D1 Hp2) as Gd.
@@ -235,10 +102,10 @@ Proof.
     apply Rmult_lt_compat_l; assumption.
 Qed.
 
-(** non-vacuity: a liquid state at 200 degC, and one at 330 degC *)
+(** non-vacuity: a liquid state at 200 degC, and saturated liquid at 349 degC *)
 Example density_increases_instance :
   let rho p := nth 0 (outsR cowat_traced [200; p] n1) 0 in 0 < rho 5000000 < rho 6000000.
-Proof. apply density_increases_region1_partial_proof; lra. Qed.
+Proof. apply density_increases_region1_proof; lra. Qed.
 Example density_increases_instance_hot :
-  let rho p := nth 0 (outsR cowat_traced [330; p] n1) 0 in 0 < rho 30000000 < rho 31000000.
-Proof. apply density_increases_region1_partial_proof; lra. Qed.
+  let rho p := nth 0 (outsR cowat_traced [349; p] n1) 0 in 0 < rho 16400000 < rho 17000000.
+Proof. apply density_increases_region1_proof; lra. Qed.
